@@ -51,7 +51,18 @@ MANIFEST = {
             "is checked against the site's fact (C03_facts_support_discharges, C03_decl_uses_discharged, C03_identifier_uses); (2) the shape of "
             "set_random_seed / __init__ / reset is regenerated as Gen/NondetSeeding.lean and must be the shape the theorems are about, with "
             "seeding before the construction of the game (C03_gen_seed_shape, C03_gen_seed_before_build) and every draw made at call time from a "
-            "seeded family (C03_gen_draw_families_seeded). Of 74 discharges 15 rest on a model lemma alone, 52 on a mechanical fact plus a lemma "
+            "seeded family (C03_gen_draw_families_seeded); (3) the LOOPS that iterate a hash-ordered set (every `for` / comprehension / list() over a set "
+            "that is not `sorted(...)`) are translated statement by statement into a small loop language (Gen/NondetLoops.lean: assignments, if/else, "
+            "emits into accumulators, uninterpreted pure functions; how each accumulator is consumed afterwards - set() / len() / sorted() / by key / "
+            "not at all / in ORDER - followed into the callee or class it is handed to); proved for ALL loops and all interpretations of the pure "
+            "functions: a well-formed loop (no local carried from one iteration to the next, every accumulator consumed order-free, dict accumulators "
+            "keyed by the element) is a permutation-invariant consumer (C03_loop_wellformed_invariant, with a counterexample per clause); Gen "
+            "obligation: every site discharged by setToSet / setNoEffect / setLengthOnly / setDictByKey has a translated, well-formed loop with the "
+            "matching use (C03_gen_loops_order_free, C03_translated_loops_invariant); the path normal form of the listen_on_ports loop (symbolic "
+            "execution in the extractor, validated against the raw translation on a grid in Lean) is pinned and PROVED equal to the consumer "
+            "`listenPorts` the component rig validates (C03_gen_listen_loop_normal_form, C03_listen_normal_is_listenPorts); the callers of "
+            "get_open_ports (whose list order can depend on PYTHONHASHSEED through the insertion order of colliding ints) are pinned to membership "
+            "tests and a sorted table (C03_gen_ordered_result_consumers). Of 74 discharges 9 rest on a model lemma alone, 58 on a mechanical fact plus a lemma "
             "for the kind, 7 on a mechanical fact plus a trusted runtime fact, none is attributed to an open finding (C03_discharge_counts); none rests on "
             "reading alone. Correspondence tie: identical (scenario, seed, operations) in fresh interpreters whose PYTHONHASHSEED values are "
             "chosen to give pairwise different set orders of the scenario's string vocabularies, logging fully on / fully off, diffed step by step "
@@ -60,8 +71,11 @@ MANIFEST = {
             "obligation line); scenarios: nmap scans, data_manipulation (shipped and generated action maps), uc7 TAP001/TAP003 with generated "
             "stochastic settings (starting_nodes / target_ips lists, variance, stage probabilities), a generated routed/DMZ scenario with "
             "random, periodic, probabilistic and data-manipulation agents, nmap, database and web traffic; the seeding path and the consumer "
-            "models against the real set_random_seed / reset / nmap / from_config / topological_sort code through the Lean driver.",
+            "models against the real set_random_seed / reset / nmap / from_config / topological_sort code through the Lean driver; "
+            "from_config on generated lists of port NAMES (string-hashed) built in each of the three interpreters and compared.",
     "note": "C03-specific: that the inventory is complete is the extractor's job (syntactic, name-based set and identifier tracking; values "
+            "that two loops with the same path normal form are equivalent is the extractor's claim (validated on a grid, not proved); the loop "
+            "translator accepts only whitelisted pure calls and treats every other call as opaque; "
             "that travel through pydantic serialisation are invisible to the data-flow check); that CPython behaves as rho says (fresh uuids "
             "distinct, int hashing is the identity, dict order = insertion order) is trusted; F-9 is replayed with a pinned clock because it "
             "cannot be hit by re-running; the multi-agent Ray environment (never calls set_random_seed) cannot be imported in this sandbox and "
@@ -75,7 +89,8 @@ MODULES = ["PrimaiteModel.Props.C03", "PrimaiteModel.Props.C03Loops"]
 # basis of every reason of the discharge table (mirrors `Discharge.basis` in Lemmas/NondetDischarge.lean; the split itself is the
 # theorem C03_discharge_counts)
 BASIS = {**{r: "mechanical" for r in ("fixedWidthReading", "fixedLenSecret", "clockNotRead", "seededRng", "seeding", "unseededByConfig",
-                                                                     "offline", "setDeclCovered", "setEmpty", "setSingleton", "hashValueDiscarded", "setSorted")},
+                                                                     "offline", "setDeclCovered", "setEmpty", "setSingleton", "hashValueDiscarded", "setSorted",
+                                                                     "setToSet", "setNoEffect", "setLengthOnly", "setDictByKey")},
          **{r: "trusted" for r in ("hashNotIterated", "setMembershipOnly", "setIntHash", "idTextEqOnly")}}
 EXE = "drv_c03"
 SKIP = {"bad_primaite_session", "no_nodes_links_agents_network", "eval_only_primaite_session", "multi_agent_session", "data_manipulation_marl"}
